@@ -7,10 +7,11 @@ The doubles that RDP/SimplifyPath only compare are a parameter (`DistOps`); what
 stated as hypotheses (`DistLaws`, ...); `intOps` shows the hypotheses are satisfiable, `ratOps` (exact rational
 distances) evaluates the two counterexamples.
 
-Two clauses of the property are FALSE for the code as it is (proved on the faithful model, witnessed on the real code by
-the harness records `kf.rdp-closed-front-back` and `kf.simplify-open-huge-eps`):
-  * `rdp_eps_false` / `rdp_keeps_ends_false`  — RamerDouglasPeucker when `path.front() == path.back()`;
-  * `simplify_keeps_ends_false`               — SimplifyPath on an open path when `Sqr(epsilon) >= MAX_DBL`.
+One clause of the property is FALSE for the code as it is (proved on the faithful model, witnessed on the real code by
+the harness record `kf.simplify-open-huge-eps`):
+  * `simplify_keeps_ends_false` — SimplifyPath on an open path when `Sqr(epsilon) >= MAX_DBL`.
+(The RamerDouglasPeucker defect for `path.front() == path.back()` was repaired in /repo, commit 890f843; `rdp_eps` and
+`rdp_keeps_ends` are now full theorems and the old witness is the regression example `rdpWitness`.)
 -/
 import ClipperVerif.Lemmas.PathUtil
 import ClipperVerif.Lemmas.TrimArea
@@ -207,21 +208,19 @@ def RdpEps (ops : DistOps D) (path : List Pt) (eps : D) (flags : List Bool) : Pr
       (∀ j, l < j → j < r → flags[j]? = some false) ∧
       ops.le (ops.dist2 (nth path i) (nth path l) (nth path r)) eps = true
 
-/- Full statement (FALSE for the current code, see `rdp_eps_false` below):
-   theorem rdp_eps (L : DistLaws ops) (hz : ops.le ops.zero eps = true) (hlen : 2 ≤ path.length) :
-       RdpEps ops path eps (rdpFlags ops path eps) -/
-
-/-- `rdp_eps` restricted to paths whose first and last vertex differ: every removed vertex is within epsilon of the
-line through its two surviving neighbours.  Missing for the full statement: `path.front() == path.back()`,
-where `RDP`'s leading `while` loop clears `flags[end]` and never sets the flag of the new `end`. -/
-theorem rdp_eps_partial (ops : DistOps D) (L : DistLaws ops) (path : List Pt) (eps : D)
-    (hz : ops.le ops.zero eps = true) (hlen : 2 ≤ path.length)
-    (hfb : nth path 0 ≠ nth path (path.length - 1)) :
+/-- **Every vertex removed by `RamerDouglasPeucker` is within epsilon of the line through its two surviving
+neighbours**, for every path — `path.front() == path.back()` included (repaired by the `fix:` commit 890f843: the
+leading `while` of `RDP` now only moves `end` and `flags[end]` is set; the vertices it skips are copies of the end
+point).  Hypotheses on the compared doubles: `DistLaws` (total preorder; distance 0 at the line's own points) and
+`0 <= epsSqr`. -/
+theorem rdp_eps (ops : DistOps D) (L : DistLaws ops) (path : List Pt) (eps : D)
+    (hz : ops.le ops.zero eps = true) :
     RdpEps ops path eps (rdpFlags ops path eps) := by
-  obtain ⟨h1, h2, h3, h4⟩ := initFlags_spec path.length hlen
-  obtain ⟨g1, g2, g3⟩ := rdp_spec ops L path eps hz path.length 0 (path.length - 1) _
-    (by omega) (by omega) (by rw [h1]; omega) h2 h3 h4 (fun _ => hfb)
   intro i hi hd
+  have hlen : 1 ≤ path.length := by omega
+  obtain ⟨h1, h2, h3, h4⟩ := initFlags_spec path.length hlen
+  obtain ⟨g1, g2, g3⟩ := rdp_spec_full ops L path eps hz path.length 0 (path.length - 1) _
+    (by omega) (by omega) (by rw [h1]; omega) h2 h3 h4
   unfold rdpFlags at hd ⊢
   simp only [] at hd ⊢
   have hkept0 := g2 0 (Or.inl (Nat.le_refl _))
@@ -233,23 +232,17 @@ theorem rdp_eps_partial (ops : DistOps D) (L : DistLaws ops) (path : List Pt) (e
   obtain ⟨l, r, _, a2, a3, a4, a5, a6, a7, a8⟩ := g3 i (by omega) (by omega) hd
   exact ⟨l, r, a2, a3, by omega, a5, a6, a7, a8⟩
 
-/-- `RamerDouglasPeucker` keeps both end points whenever they differ (or the path has fewer than 5 vertices).
-Missing for the unconditional statement: the same defect as for `rdp_eps` (front == back drops the last vertex). -/
-theorem rdp_keeps_ends_partial (ops : DistOps D) (L : DistLaws ops) (path : List Pt) (eps : D)
-    (hz : ops.le ops.zero eps = true)
-    (hfb : path.length < 5 ∨ nth path 0 ≠ nth path (path.length - 1)) :
+/-- `RamerDouglasPeucker` keeps both end points of every path. -/
+theorem rdp_keeps_ends (ops : DistOps D) (L : DistLaws ops) (path : List Pt) (eps : D)
+    (hz : ops.le ops.zero eps = true) :
     KeepsEnds path (ramerDouglasPeucker ops path eps) := by
   unfold ramerDouglasPeucker
   split
   · exact ⟨rfl, rfl⟩
   · rename_i h5
-    have hfb' : nth path 0 ≠ nth path (path.length - 1) := by
-      cases hfb with
-      | inl h => omega
-      | inr h => exact h
     obtain ⟨h1, h2, h3, h4⟩ := initFlags_spec path.length (by omega)
-    obtain ⟨g1, g2, g3⟩ := rdp_spec ops L path eps hz path.length 0 (path.length - 1) _
-      (by omega) (by omega) (by rw [h1]; omega) h2 h3 h4 (fun _ => hfb')
+    obtain ⟨g1, g2, g3⟩ := rdp_spec_full ops L path eps hz path.length 0 (path.length - 1) _
+      (by omega) (by omega) (by rw [h1]; omega) h2 h3 h4
     have hkept0 := g2 0 (Or.inl (Nat.le_refl _))
     have hkeptn := g2 (path.length - 1) (Or.inr (Nat.le_refl _))
     constructor
@@ -266,30 +259,12 @@ def ratOps : DistOps (Int × Int) where
     let a := p.x - l1.x; let b := p.y - l1.y; let c := l2.x - l1.x; let d := l2.y - l1.y
     if c = 0 ∧ d = 0 then (0, 1) else ((a * d - c * b) * (a * d - c * b), c * c + d * d)
 
-/-- the probed input of DESIGN.md §9 defect 5 -/
+/-- the input of DESIGN.md §9 defect 5 (`front == back`), now a regression example -/
 def rdpWitness : List Pt := [⟨0, 0⟩, ⟨10, 0⟩, ⟨20, 0⟩, ⟨20, 1000⟩, ⟨0, 0⟩]
 
-theorem rdpWitness_flags : rdpFlags ratOps rdpWitness (1, 1) = [true, false, true, false, false] := by decide
-
-/-- On `{(0,0),(10,0),(20,0),(20,1000),(0,0)}` with epsilon 1 the model (as the real code) returns `{(0,0),(20,0)}`. -/
-theorem rdpWitness_result : ramerDouglasPeucker ratOps rdpWitness (1, 1) = [⟨0, 0⟩, ⟨20, 0⟩] := by decide
-
-/-- **The epsilon clause fails for the code as it is**: with `front == back` the vertex (20,1000) and the last
-vertex are removed although no kept vertex follows them (and (20,1000) is 1000 away from every line through kept
-vertices).  Witness evaluated on the faithful model with exact rational distances. -/
-theorem rdp_eps_false : ¬ RdpEps ratOps rdpWitness (1, 1) (rdpFlags ratOps rdpWitness (1, 1)) := by
-  intro h
-  obtain ⟨l, r, _, h2, h3, _, h5, _⟩ := h 3 (by decide) (by rw [rdpWitness_flags]; rfl)
-  rw [rdpWitness_flags] at h5
-  have hr : r = 4 := by
-    have : rdpWitness.length = 5 := rfl
-    omega
-  subst hr
-  simp at h5
-
-/-- and the end point is not kept either -/
-theorem rdp_keeps_ends_false : ¬ KeepsEnds rdpWitness (ramerDouglasPeucker ratOps rdpWitness (1, 1)) := by
-  rw [rdpWitness_result]; unfold KeepsEnds rdpWitness; simp
+-- before the fix the result was `{(0,0),(20,0)}`; now the far vertex and the end point stay
+example : rdpFlags ratOps rdpWitness (1, 1) = [true, false, true, true, true] ∧
+    ramerDouglasPeucker ratOps rdpWitness (1, 1) = [⟨0, 0⟩, ⟨20, 0⟩, ⟨20, 1000⟩, ⟨0, 0⟩] := by decide
 
 /-! ## SimplifyPath -/
 
@@ -516,11 +491,11 @@ theorem getBounds_spec (p : List Pt) (hne : p ≠ [])
 example : stripDuplicates [⟨1, 1⟩, ⟨1, 1⟩, ⟨2, 0⟩, ⟨2, 0⟩, ⟨1, 1⟩, ⟨1, 1⟩] true = [⟨1, 1⟩, ⟨2, 0⟩] := by decide
 example : getBounds [⟨3, -1⟩, ⟨-7, 4⟩, ⟨0, 9⟩] = ⟨-7, -1, 3, 9⟩ := by decide
 
--- non-vacuity of `rdp_eps_partial` / `rdp_keeps_ends_partial`: a 6-vertex path with front ≠ back, some vertices go
-example : 2 ≤ [(⟨0, 0⟩ : Pt), ⟨10, 1⟩, ⟨20, 0⟩, ⟨30, 40⟩, ⟨40, 0⟩, ⟨50, 0⟩].length ∧
-    nth [(⟨0, 0⟩ : Pt), ⟨10, 1⟩, ⟨20, 0⟩, ⟨30, 40⟩, ⟨40, 0⟩, ⟨50, 0⟩] 0 ≠ nth [(⟨0, 0⟩ : Pt), ⟨10, 1⟩, ⟨20, 0⟩, ⟨30, 40⟩, ⟨40, 0⟩, ⟨50, 0⟩] 5 ∧
-    intOps.le intOps.zero 10000 = true ∧
+-- non-vacuity of `rdp_eps` / `rdp_keeps_ends` (lawful `intOps`, `0 ≤ epsSqr`): some vertices go; front ≠ back and front == back
+example : intOps.le intOps.zero 10000 = true ∧
     ramerDouglasPeucker intOps [(⟨0, 0⟩ : Pt), ⟨10, 1⟩, ⟨20, 0⟩, ⟨30, 40⟩, ⟨40, 0⟩, ⟨50, 0⟩] 10000
-      = [⟨0, 0⟩, ⟨20, 0⟩, ⟨30, 40⟩, ⟨40, 0⟩, ⟨50, 0⟩] := by decide
+      = [⟨0, 0⟩, ⟨20, 0⟩, ⟨30, 40⟩, ⟨40, 0⟩, ⟨50, 0⟩] ∧
+    ramerDouglasPeucker intOps [(⟨0, 0⟩ : Pt), ⟨10, 1⟩, ⟨20, 0⟩, ⟨30, 40⟩, ⟨0, 0⟩, ⟨0, 0⟩] 10000
+      = [⟨0, 0⟩, ⟨20, 0⟩, ⟨30, 40⟩, ⟨0, 0⟩] := by decide
 
 end Clipper.Props.C20
